@@ -136,20 +136,49 @@ def _alarm(signum, frame):
     raise CaseTimeout()
 
 
-def run_case(prop, case, wall=150.0):
+CONFIRM_BUDGET = 60000000
+
+
+def run_case(prop, case, wall=150.0, confirm=True):
     """Run one case with the wall-clock backstop armed."""
     old = signal.signal(signal.SIGALRM, _alarm)
     signal.setitimer(signal.ITIMER_REAL, wall)
     out = Out()
+    timed_out = False
     try:
         try:
             prop.run(case, out)
         except CaseTimeout:
-            if not any(c.startswith("hang:") for c, _ in out.fails):
-                out.fail("hang:unknown")
+            timed_out = True
     finally:
         signal.setitimer(signal.ITIMER_REAL, 0)
         signal.signal(signal.SIGALRM, old)
+    if timed_out and confirm:
+        # the wall clock is never a verdict: the case is run again without it under a budget of interpreter line
+        # events (a pure function of code and input).  Finishing means "slow machine", exhausting it is the verdict.
+        from sim.steps import LineBudget, BudgetExceeded, OUTER_TOOL
+        hung = [c for c, _ in out.fails if c.startswith("hang:")] or ["hang:unknown"]
+        out2 = Out()
+        b = LineBudget(CONFIRM_BUDGET, tool=OUTER_TOOL, jumps=True)
+        old = signal.signal(signal.SIGALRM, _alarm)
+        signal.setitimer(signal.ITIMER_REAL, 6 * wall)      # last resort only (e.g. a loop inside one C call)
+        try:
+            try:
+                with b:
+                    prop.run(case, out2)
+            finally:
+                signal.setitimer(signal.ITIMER_REAL, 0)
+                signal.signal(signal.SIGALRM, old)
+            out2.probe("wall_alarm_not_confirmed_slow_case")
+            return out2
+        except BudgetExceeded:
+            out2.fails = [f for f in out.fails if not f[0].startswith("hang:")]
+            out2.fail(hung[0].replace("hang:", "no-termination:"), budget_line_events=CONFIRM_BUDGET)
+            return out2
+        except CaseTimeout:
+            pass
+    if timed_out and not any(c.startswith("hang:") for c, _ in out.fails):
+        out.fail("hang:unknown")
     return out
 
 
@@ -168,7 +197,7 @@ def shrink(prop, case, clause, budget=400, wall=40.0, kid=None):
             if tries >= budget or time.time() - t0 > wall:
                 break
             try:
-                o = run_case(prop, cand, wall=20.0)
+                o = run_case(prop, cand, wall=20.0, confirm=False)
             except Exception:
                 continue   # candidate outside the generator's domain: skip
             if clause in o.clauses() and known.match(prop, cand, clause) == kid:
